@@ -9,6 +9,16 @@
 //! (see `arr_entry`): the entries may or may not look like what an incrementing range would have produced, entry by entry,
 //! so the family holds the arrays on both sides of (and every mixture across) the border between "array target" and
 //! "incrementing target" that the property keeps apart; alone and overlapped by / overlapping one other definition.
+//! The LAYOUT OF THE CODE SPACE is a dimension of its own (d): a well-formed CMap may declare the code space of one code
+//! length as several ranges, in any order, in one codespacerange section or in several. The family holds every way of cutting
+//! the code space of a length into 2 or 3 ranges at a boundary next to a mapped code, in every order of listing and every
+//! sectioning; the definitions lie in the first, a middle or the last range or straddle a cut. Every mapped code lies in
+//! the code space, so the code space never changes what a code maps to: the oracle does not look at it.
+//! The UNITS OF THE TARGETS are a dimension of their own (e): every target of 1..3 "letters" over an alphabet of UTF-16 units
+//! at the ends of the unit range, of the byte boundary and of the surrogate block, the replacement character and the units
+//! that spell an encoding signature (byte order mark) when a text starts with them; as a bfchar target, a range target and an
+//! array entry. A target is text whatever its units are; a code is checked alone and behind / before another code, and a
+//! deviation that only shows when the text STARTS with a signature is reported under an obligation of its own.
 #![allow(dead_code)]
 use crate::common::*;
 use crate::gen::*;
@@ -134,16 +144,81 @@ fn codespace(lens: &[usize]) -> Vec<(u32, u32, usize)> {
     ls.into_iter().map(|l| (mbase(l) & !0x0F, mbase(l) | 0x0F, l)).collect()
 }
 
+/// one code space range as it is written: first code, last code, code length, and whether it opens a new
+/// begincodespacerange section (the first range always does). The ranges are written in the order of the list.
+pub type Cs = Vec<(u32, u32, usize, bool)>;
+
+/// the code space of the families (a)-(c), (e): the ranges of `codespace` in one section
+fn default_cs(lens: &[usize]) -> Cs { codespace(lens).into_iter().enumerate().map(|(i, (lo, hi, l))| (lo, hi, l, i == 0)).collect() }
+
+/// the orders in which k <= 3 things are listed (every permutation)
+fn perms(k: usize) -> Vec<Vec<usize>> {
+    match k { 1 => vec![vec![0]], 2 => vec![vec![0, 1], vec![1, 0]], _ => vec![vec![0, 1, 2], vec![0, 2, 1], vec![1, 0, 2], vec![1, 2, 0], vec![2, 0, 1], vec![2, 1, 0]] }
+}
+
+/// `row` = (first, last) code of a code space of one length whose mapped codes are b ..= b+5. The cuts are the code values
+/// b ..= b+6: a cut c ends one range at c-1 and starts the next at c (cut b: no mapped code in the first range, cut b+6:
+/// none in the last one). Every choice of k-1 cuts (ascending), as the list of the k ranges in ascending order.
+fn cut_rows(row: (u32, u32), b: u32, k: usize) -> Vec<Vec<(u32, u32)>> {
+    let cuts: Vec<u32> = (b..=b + 6).collect();
+    let mut out = vec![];
+    if k == 2 { for &c in &cuts { out.push(vec![(row.0, c - 1), (c, row.1)]); } }
+    if k == 3 { for (i, &c1) in cuts.iter().enumerate() { for &c2 in &cuts[i + 1..] { out.push(vec![(row.0, c1 - 1), (c1, c2 - 1), (c2, row.1)]); } } }
+    out
+}
+
+/// every layout of the code space of ONE code length, cut into k ranges: every choice of cuts x every order of listing x
+/// every sectioning (bit j of the mask: the range listed at place j+1 opens a new section)
+fn layouts_one(b: u32, len: usize, k: usize) -> Vec<Cs> {
+    let row = (b & !0xFF, b | 0xFF);
+    let mut out = vec![];
+    for pieces in cut_rows(row, b, k) { for order in perms(k) { for mask in 0..(1u32 << (k - 1)) {
+        out.push(order.iter().enumerate().map(|(j, &p)| (pieces[p].0, pieces[p].1, len, j == 0 || (mask >> (j - 1)) & 1 == 1)).collect());
+    } } }
+    out
+}
+
+/// layouts of a code space of SEVERAL code lengths (the prefix-free ranges of `codespace`), the range of every length cut
+/// in two at the same place relative to its mapped codes. Orders of listing: 0 = by length, each length's two
+/// ranges ascending; 1 = the reverse of that; 2 = the first ranges of all lengths, then the second ranges (the two ranges
+/// of a length are not neighbours). Sections: one for all ranges, or one per range. (6 cuts: behind the first .. behind
+/// the last mapped code; these code spaces start at their first mapped code, so there is no cut in front of it.)
+fn layouts_mixed(lens: &[usize]) -> Vec<Cs> {
+    let rows = codespace(lens);
+    let mut out = vec![];
+    for cut in 1..=6u32 { for order in 0..3 { for per_range in [false, true] {
+        let halves: Vec<[(u32, u32, usize); 2]> = rows.iter().map(|&(lo, hi, l)| { let c = mbase(l) + cut; [(lo, c - 1, l), (c, hi, l)] }).collect();
+        let mut list: Vec<(u32, u32, usize)> = match order {
+            2 => halves.iter().map(|h| h[0]).chain(halves.iter().map(|h| h[1])).collect(),
+            _ => halves.iter().flat_map(|h| h.iter().copied()).collect(),
+        };
+        if order == 1 { list.reverse(); }
+        out.push(list.into_iter().enumerate().map(|(j, (lo, hi, l))| (lo, hi, l, j == 0 || per_range)).collect());
+    } } }
+    out
+}
+
+fn show_cs(cs: &Cs) -> String {
+    cs.iter().map(|(lo, hi, l, new)| format!("{}<{}> <{}>", if *new { "| " } else { "" }, hexc(*lo, *l), hexc(*hi, *l))).collect::<Vec<_>>().join(" ")
+}
+
 /// render with `sectioning`: bit k set = definition k+1 starts a new section even if it has the same kind as definition k
 /// (a section may hold codes of different lengths)
-fn render(defs: &[Def], lens: &[usize], sectioning: u32, style: usize) -> Vec<u8> {
+/// `cs`: the code space as it is written (ranges in that order, `true` = the range opens a new codespacerange section)
+fn render(defs: &[Def], lens: &[usize], cs: &Cs, sectioning: u32, style: usize) -> Vec<u8> {
     let nl = if style == 0 { "\n" } else { "\r\n" };
     let sp = if style == 0 { " " } else { "  " };
     let mut s = String::new();
-    let cs = codespace(lens);
-    s.push_str(&format!("/CIDInit /ProcSet findresource begin{nl}12 dict begin{nl}begincmap{nl}/CIDSystemInfo << /Registry (Adobe) /Ordering (UCS) /Supplement 0 >> def{nl}/CMapName /Adobe-Identity-UCS def{nl}/CMapType 2 def{nl}{} begincodespacerange{nl}", cs.len()));
-    for (lo, hi, l) in &cs { s.push_str(&format!("<{}>{sp}<{}>{nl}", hexc(*lo, *l), hexc(*hi, *l))); }
-    s.push_str(&format!("endcodespacerange{nl}"));
+    s.push_str(&format!("/CIDInit /ProcSet findresource begin{nl}12 dict begin{nl}begincmap{nl}/CIDSystemInfo << /Registry (Adobe) /Ordering (UCS) /Supplement 0 >> def{nl}/CMapName /Adobe-Identity-UCS def{nl}/CMapType 2 def{nl}"));
+    let mut r = 0;
+    while r < cs.len() {
+        let mut e = r + 1;
+        while e < cs.len() && !cs[e].3 { e += 1; }
+        s.push_str(&format!("{} begincodespacerange{nl}", e - r));
+        for (lo, hi, l, _) in &cs[r..e] { s.push_str(&format!("<{}>{sp}<{}>{nl}", hexc(*lo, *l), hexc(*hi, *l))); }
+        s.push_str(&format!("endcodespacerange{nl}"));
+        r = e;
+    }
     let kind = |d: &Def| matches!(d, Def::Char(..));
     let mut i = 0;
     while i < defs.len() {
@@ -166,11 +241,16 @@ fn render(defs: &[Def], lens: &[usize], sectioning: u32, style: usize) -> Vec<u8
     s.into_bytes()
 }
 
-/// one mapped code: its length, value, bytes and the text the CMap defines for it
-struct Mapped { len: usize, code: u32, bytes: Vec<u8>, want: String }
+/// one mapped code: its length, value, bytes, the text the CMap defines for it, and whether that text, standing first in
+/// a string, starts with an encoding signature (see `signature`)
+struct Mapped { len: usize, code: u32, bytes: Vec<u8>, want: String, sig: bool }
 
-fn show_codes(seq: &[&Mapped]) -> String {
-    format!("{} (code lengths {})", seq.iter().map(|m| format!("<{}>", hexc(m.code, m.len))).collect::<Vec<_>>().join(" "), seq.iter().map(|m| m.len.to_string()).collect::<Vec<_>>().join(","))
+/// does a text with these UTF-16 units start with an encoding signature: the bytes of its UTF-16BE form start with FE FF
+/// (the byte order mark), FF FE (the byte order mark of the other byte order) or EF BB BF (the UTF-8 one). In a ToUnicode
+/// target these units are text like any other (U+FEFF ZERO WIDTH NO-BREAK SPACE, U+FFFE, U+EFBB U+BFxx); a decoder that
+/// sniffs for signatures changes the text only when they come first.
+fn signature(units: &[u16]) -> bool {
+    matches!(units.first(), Some(0xFEFF) | Some(0xFFFE)) || (units.first() == Some(&0xEFBB) && units.get(1).map_or(false, |u| u >> 8 == 0xBF))
 }
 
 /// the definitions as CMap lines (hexadecimal, as in the stream), in definition order
@@ -182,25 +262,40 @@ fn show_defs(defs: &[Def], lens: &[usize]) -> String {
     }).collect::<Vec<_>>().join("; ")
 }
 
-/// `max_seq`: every sequence of 2..=max_seq mapped codes is decoded as one string (besides every code alone and all codes in a row)
-pub fn check(defs: &[Def], lens: &[usize], sectioning: u32, style: usize, max_seq: usize) -> Result<(), (String, String)> {
-    if lens.len() != defs.len() || lens.iter().any(|l| !(1..=4).contains(l)) { return Err(("oracle".into(), "one code length in 1..=4 per definition expected".into())); }
-    let cmap = render(defs, lens, sectioning, style);
+fn show_codes(seq: &[&Mapped]) -> String {
+    format!("{} (code lengths {})", seq.iter().map(|m| format!("<{}>", hexc(m.code, m.len))).collect::<Vec<_>>().join(" "), seq.iter().map(|m| m.len.to_string()).collect::<Vec<_>>().join(","))
+}
+
+/// the obligation for a deviation that shows only in a decoded text that STARTS with an encoding signature
+const O_SIG: &str = "text-starting-with-signature-units-is-kept";
+
+/// `max_seq`: every sequence of 2..=max_seq mapped codes is decoded as one string (besides every code alone and all codes in a row).
+/// Returns every failed obligation found: at most one "hard" failure (the session stops at the first one) and at most one
+/// failure of `O_SIG`, which does not stop the session (so that it cannot hide the others).
+pub fn check(defs: &[Def], lens: &[usize], cs: &Cs, sectioning: u32, style: usize, max_seq: usize) -> Vec<(String, String)> {
+    if lens.len() != defs.len() || lens.iter().any(|l| !(1..=4).contains(l)) { return vec![("oracle".into(), "one code length in 1..=4 per definition expected".into())]; }
+    if cs.is_empty() || cs.iter().any(|(lo, hi, l, _)| hi < lo || !(1..=4).contains(l)) { return vec![("oracle".into(), "code space ranges <lo> <= <hi> of length 1..=4 expected".into())]; }
+    let cmap = render(defs, lens, cs, sectioning, style);
     // the mapped codes, by the reference semantics, in the order (length, code)
     let mut cand: Vec<(usize, u32)> = vec![];
     for (d, l) in defs.iter().zip(lens) {
         let (lo, hi) = match d { Def::Char(c, _) => (*c, *c), Def::RangeStr(lo, hi, _) | Def::RangeArr(lo, hi, _) => (*lo, *hi) };
-        if hi < lo || hi - lo > 64 { return Err(("oracle".into(), "definition outside of the bounded family".into())); }
+        if hi < lo || hi - lo > 64 { return vec![("oracle".into(), "definition outside of the bounded family".into())]; }
         for c in lo..=hi { cand.push((*l, c)); }
     }
     cand.sort(); cand.dedup();
     let mut mapped: Vec<Mapped> = vec![];
     for (len, code) in cand {
+        // well-formed CMaps only: every code of a definition lies in the declared code space (in one of its ranges of that length)
+        if !cs.iter().any(|(lo, hi, l, _)| *l == len && *lo <= code && code <= *hi) { return vec![("oracle".into(), format!("code <{}> of a definition lies outside the code space {}", hexc(code, len), show_cs(cs)))]; }
         let Some(units) = lookup(defs, lens, len, code) else { continue };
-        let want = String::from_utf16(&units).map_err(|_| ("oracle".to_string(), "pool produced an invalid UTF-16 target".to_string()))?;
-        mapped.push(Mapped { len, code, bytes: code_bytes(code, len), want });
+        let Ok(want) = String::from_utf16(&units) else { return vec![("oracle".to_string(), "pool produced an invalid UTF-16 target".to_string())] };
+        mapped.push(Mapped { len, code, bytes: code_bytes(code, len), want, sig: signature(&units) });
     }
+    // what the failure messages say about the CMap: the definitions, and the code space when it is not the plain one
+    let about = if *cs == default_cs(lens) { format!("definitions {}", show_defs(defs, lens)) } else { format!("definitions {}; code space (| opens a codespacerange section) {}", show_defs(defs, lens), show_cs(cs)) };
     let current = std::cell::RefCell::new(String::new());
+    let soft: std::cell::RefCell<Option<(String, String)>> = std::cell::RefCell::new(None);
     let session = || -> Result<(), (String, String)> {
         // the library parses the CMap once; every string below is decoded with that one encoding
         let mut d = Document::with_version("1.5");
@@ -208,7 +303,7 @@ pub fn check(defs: &[Def], lens: &[usize], sectioning: u32, style: usize, max_se
         let mut font = Dictionary::new();
         font.set("Type", name(b"Font")); font.set("Subtype", name(b"Type0")); font.set("Encoding", name(b"Identity-H")); font.set("ToUnicode", Object::Reference(sid));
         *current.borrow_mut() = "reading the CMap".into();
-        let enc = font.get_font_encoding(&d).map_err(|e| ("decodes".to_string(), format!("CMap rejected: {}; definitions {}", e, show_defs(defs, lens))))?;
+        let enc = font.get_font_encoding(&d).map_err(|e| ("decodes".to_string(), format!("CMap rejected: {}; {}", e, about)))?;
         let decode = |seq: &[&Mapped]| -> Result<(String, String), (String, String)> {
             *current.borrow_mut() = format!("decoding {}", show_codes(seq));
             let bytes: Vec<u8> = seq.iter().flat_map(|m| m.bytes.iter().copied()).collect();
@@ -216,16 +311,39 @@ pub fn check(defs: &[Def], lens: &[usize], sectioning: u32, style: usize, max_se
             let got = enc.bytes_to_string(&bytes).map_err(|e| ("decodes".to_string(), format!("codes {}: {}", show_codes(seq), e)))?;
             Ok((want, got))
         };
-        for m in &mapped {
+        // a deviation in a text that starts with an encoding signature: noted (the first one), the session goes on
+        let note_sig = |seq: &[&Mapped], want: &str, got: &str| {
+            let mut s = soft.borrow_mut();
+            let which = match want.encode_utf16().next() { Some(0xFEFF) => "<FEFF> (as bytes, the UTF-16BE byte order mark; as text, ZERO WIDTH NO-BREAK SPACE)", Some(0xFFFE) => "<FFFE> (as bytes, the UTF-16LE byte order mark)", _ => "<EFBB BFxx> (as bytes, the UTF-8 byte order mark followed by one byte)" };
+            if s.is_none() { *s = Some((O_SIG.into(), format!("text starting with {}: the string of codes {} should decode to {:?} (in a ToUnicode target these units are text like any other, wherever the code stands in the string); decoded {:?}; {}", which, show_codes(seq), want, got, about))); }
+        };
+        // every code alone
+        let mut alone_ok = vec![false; mapped.len()];
+        for (i, m) in mapped.iter().enumerate() {
             let (want, got) = decode(&[m])?;
-            if got != want {
-                let (o, why) = clause(defs, lens, m.len, m.code);
-                return Err((o.into(), format!("code <{}> should decode to {:?} ({}), decoded {:?}; definitions {}", hexc(m.code, m.len), want, why, got, show_defs(defs, lens))));
+            if got == want { alone_ok[i] = true; continue; }
+            if m.sig { note_sig(&[m], &want, &got); continue; }
+            let (o, why) = clause(defs, lens, m.len, m.code);
+            return Err((o.into(), format!("code <{}> should decode to {:?} ({}), decoded {:?}; {}", hexc(m.code, m.len), want, why, got, about)));
+        }
+        // a code that did not decode alone because its text starts with a signature: is the CODE mapped as defined? Decode
+        // it behind a code that decodes alone (its text is then not at the start), and charge a deviation to its definition
+        if let Some(carrier) = mapped.iter().enumerate().find(|(i, m)| alone_ok[*i] && !m.sig).map(|(_, m)| m) {
+            for (i, m) in mapped.iter().enumerate() {
+                if alone_ok[i] { continue; }
+                let (want, got) = decode(&[carrier, m])?;
+                if got != want {
+                    let (o, why) = clause(defs, lens, m.len, m.code);
+                    return Err((o.into(), format!("code <{}> should decode to {:?} ({}); decoded behind code <{}> (which alone decodes to {:?}, as defined), the two should give {:?}, decoded {:?}; {}", hexc(m.code, m.len), m.want, why, hexc(carrier.code, carrier.len), carrier.want, want, got, about)));
+                }
             }
         }
         let all: Vec<&Mapped> = mapped.iter().collect();
         let (want, got) = decode(&all)?;
-        if got != want { return Err(("string-of-mapped-codes".into(), format!("all mapped codes in a row should decode to {:?}, got {:?}; definitions {}", want, got, show_defs(defs, lens)))); }
+        if got != want {
+            if all[0].sig { note_sig(&all, &want, &got); }
+            else { return Err(("string-of-mapped-codes".into(), format!("all mapped codes in a row should decode to {:?}, got {:?}; {}", want, got, about))); }
+        }
         // every sequence of 2..=max_seq mapped codes, shortest first (the first failure is a smallest one)
         let m = mapped.len();
         for k in 2..=max_seq {
@@ -235,7 +353,8 @@ pub fn check(defs: &[Def], lens: &[usize], sectioning: u32, style: usize, max_se
                 let seq: Vec<&Mapped> = idx.iter().map(|&i| &mapped[i]).collect();
                 let (want, got) = decode(&seq)?;
                 if got != want {
-                    return Err(("code-sequence-decodes-code-by-code".into(), format!("the string of codes {} should decode to {:?} (each code by its last covering definition), decoded {:?}; definitions {}", show_codes(&seq), want, got, show_defs(defs, lens))));
+                    if seq[0].sig { note_sig(&seq, &want, &got); }
+                    else { return Err(("code-sequence-decodes-code-by-code".into(), format!("the string of codes {} should decode to {:?} (each code by its last covering definition), decoded {:?}; {}", show_codes(&seq), want, got, about))); }
                 }
                 let (mut p, mut wrapped) = (k, true);
                 while p > 0 { p -= 1; idx[p] += 1; if idx[p] < m { wrapped = false; break; } idx[p] = 0; }
@@ -244,17 +363,22 @@ pub fn check(defs: &[Def], lens: &[usize], sectioning: u32, style: usize, max_se
         }
         Ok(())
     };
-    match guarded(std::panic::AssertUnwindSafe(session)) {
-        Err(p) => Err(("no-panic".into(), format!("{} while {}; definitions {}", p, current.borrow(), show_defs(defs, lens)))),
+    let hard = match guarded(std::panic::AssertUnwindSafe(session)) {
+        Err(p) => Err(("no-panic".into(), format!("{} while {}; {}", p, current.borrow(), about))),
         Ok(r) => r,
-    }
+    };
+    let mut out: Vec<(String, String)> = vec![];
+    if let Err(e) = hard { out.push(e); }
+    if let Some(e) = soft.into_inner() { out.push(e); }
+    out
 }
 
-fn defs_json(defs: &[Def], lens: &[usize], sectioning: u32, style: usize, max_seq: usize) -> Value {
-    json!({"lens": lens, "sectioning": sectioning, "style": style, "max_seq": max_seq, "defs": defs.iter().map(|d| match d {
+/// `obligation`: the failed obligation the record is written for (replay reports that kind of failure only, see `replay`)
+fn defs_json(defs: &[Def], lens: &[usize], cs: &Cs, sectioning: u32, style: usize, max_seq: usize, obligation: &str) -> Value {
+    json!({"obligation": obligation, "lens": lens, "cs": cs.iter().map(|(lo, hi, l, new)| json!([lo, hi, l, new])).collect::<Vec<_>>(), "sectioning": sectioning, "style": style, "max_seq": max_seq, "defs": defs.iter().map(|d| match d {
         Def::Char(c, u) => json!({"k": "char", "c": c, "u": u}), Def::RangeStr(lo, hi, u) => json!({"k": "str", "lo": lo, "hi": hi, "u": u}), Def::RangeArr(lo, hi, a) => json!({"k": "arr", "lo": lo, "hi": hi, "a": a}) }).collect::<Vec<_>>()})
 }
-fn defs_from(v: &Value) -> (Vec<Def>, Vec<usize>, u32, usize, usize) {
+fn defs_from(v: &Value) -> (Vec<Def>, Vec<usize>, Cs, u32, usize, usize) {
     let u16s = |x: &Value| -> Vec<u16> { x.as_array().cloned().unwrap_or_default().iter().map(|y| y.as_u64().unwrap_or(0) as u16).collect() };
     let defs: Vec<Def> = v["defs"].as_array().cloned().unwrap_or_default().iter().map(|d| match d["k"].as_str() {
         Some("char") => Def::Char(d["c"].as_u64().unwrap() as u32, u16s(&d["u"])),
@@ -266,10 +390,18 @@ fn defs_from(v: &Value) -> (Vec<Def>, Vec<usize>, u32, usize, usize) {
         Some(a) => a.iter().map(|x| x.as_u64().unwrap_or(2) as usize).collect(),
         None => vec![v["code_len"].as_u64().unwrap_or(2) as usize; defs.len()],
     };
-    (defs, lens, v["sectioning"].as_u64().unwrap_or(0) as u32, v["style"].as_u64().unwrap_or(0) as usize, v["max_seq"].as_u64().unwrap_or(1) as usize)
+    // records written before the layout of the code space became a dimension have no "cs": the plain code space
+    let cs: Cs = match v["cs"].as_array() {
+        Some(a) => a.iter().map(|r| (r[0].as_u64().unwrap_or(0) as u32, r[1].as_u64().unwrap_or(0) as u32, r[2].as_u64().unwrap_or(0) as usize, r[3].as_bool().unwrap_or(false))).collect(),
+        None => default_cs(&lens),
+    };
+    (defs, lens, cs, v["sectioning"].as_u64().unwrap_or(0) as u32, v["style"].as_u64().unwrap_or(0) as usize, v["max_seq"].as_u64().unwrap_or(1) as usize)
 }
 
 const MAX_SEQ: usize = 3;
+/// code strings of the families (d) and (e): every sequence of 2 mapped codes (those families vary the code space and the
+/// targets; the strings of 3 codes belong to the families that vary the definitions)
+const MAX_SEQ_DE: usize = 2;
 /// array targets: the units an array starts from (<00FE>: the run crosses the byte boundary <00FF>/<0100>), the longest array
 /// taken alone and the longest array taken together with another definition
 const ARR_UNITS: [u16; 2] = [0x0041, 0x00FE];
@@ -279,58 +411,137 @@ const ARR_MAX_CTX: usize = 3;
 /// whole single-unit range, multi-unit range, array range with multi-unit / astral elements, bfchar single unit
 const QUICK_MIXED: [usize; 5] = [1, 3, 5, 8, 11];
 
+/// (e) the letters targets are made of. One letter is one UTF-16 unit or one surrogate pair (so every sequence of letters is
+/// well-formed UTF-16): an ordinary unit; the ends of the unit range <0000> <FFFF>; the byte boundary <00FF> <0100>; the
+/// units next to the surrogate block <D7FF> <E000>; the first and the last surrogate pair; the replacement character <FFFD>
+/// (what an unmapped code gives); and the units that spell an encoding signature at the start of a text: <FEFF> (byte order
+/// mark = ZERO WIDTH NO-BREAK SPACE), <FFFE> (the other byte order), <EFBB> <BF41> (together: the bytes of the UTF-8 one)
+const LETTERS: [&[u16]; 14] = [&[0x0041], &[0x0000], &[0x00FF], &[0x0100], &[0xD7FF], &[0xE000], &[0xEFBB], &[0xBF41], &[0xFEFF], &[0xFFFE], &[0xFFFD], &[0xFFFF], &[0xD800, 0xDC00], &[0xDBFF, 0xDFFF]];
+
+/// every target of 1..=n_max letters (shortest first)
+fn letter_targets(n_max: usize) -> Vec<Vec<u16>> {
+    let mut out = vec![];
+    for n in 1..=n_max {
+        let mut idx = vec![0usize; n];
+        loop {
+            out.push(idx.iter().flat_map(|&i| LETTERS[i].iter().copied()).collect());
+            let (mut p, mut wrapped) = (n, true);
+            while p > 0 { p -= 1; idx[p] += 1; if idx[p] < LETTERS.len() { wrapped = false; break; } idx[p] = 0; }
+            if wrapped { break; }
+        }
+    }
+    out
+}
+
+/// (e) the CMap that gives the target `t` to a code, by `kind`: 0 = bfchar <b+2> t; 1 = bfrange <b+2> <b+3> t (two codes: the
+/// target and the target with 1 added to its last unit; one code <b+2> <b+2> when that unit cannot take 1 more: <FFFF>, or
+/// the result would be a lone surrogate); 2 = bfrange <b+2> <b+4> [t <0058> t] (array entry at offsets 0 and 2).
+/// Before it, bfchar <b> <0078>: a second code with an ordinary target, to stand before and behind the code in a string.
+fn target_defs(b: u32, kind: usize, t: &[u16]) -> Vec<Def> {
+    let x = Def::Char(b, vec![0x0078]);
+    let d = match kind {
+        0 => Def::Char(b + 2, t.to_vec()),
+        1 => {
+            let mut t1 = t.to_vec(); let l = t1.len() - 1;
+            let two = match t1[l].checked_add(1) { Some(u) => { t1[l] = u; String::from_utf16(&t1).is_ok() } None => false };
+            Def::RangeStr(b + 2, if two { b + 3 } else { b + 2 }, t.to_vec())
+        }
+        _ => Def::RangeArr(b + 2, b + 4, vec![t.to_vec(), vec![0x0058], t.to_vec()]),
+    };
+    vec![x, d]
+}
+
+struct Case { defs: Vec<Def>, lens: Vec<usize>, cs: Option<Cs>, max_seq: usize }
+
 pub fn run(thorough: bool) -> Report {
-    let bound = format!("CMaps: (a) one code length in {{1, 2, 3, 4}} (3- and 4-byte codes with non-zero leading bytes, code space = all codes of that length) x every sequence of 1..3 definitions (with repetition, order significant) over a pool of 12 (bfchar single / surrogate pair / two units; bfrange with single unit, multi-unit, astral and array targets; overlapping, nested, adjacent and coalescable ranges); (b) mixed code lengths: every sequence of 2 definitions over the pool of 12 and every sequence of 3 definitions over {}, each x every assignment of a code length in {{1, 2, 3, 4}} to each definition that uses at least two lengths (12 resp. 60 assignments; prefix-free code spaces <10>..<1F>, <0110>..<011F>, <810110>..<81011F>, <8E810110>..<8E81011F>, one codespacerange per length used, the tail of a longer code is a shorter mapped code; a section may hold codes of several lengths); (c) array targets as a dimension of their own: bfrange <b+1> <b+n> [e_0 .. e_(n-1)] with one entry per code, for every array of n = 1..{} entries over {} entry shapes stated relative to the offset i and a start unit u (<u+i> alone = what an incrementing range from <u> would define; <u+i 0301> several units, the first continues the run; <0066 u+i> several units, the last continues the run; <u> no increment; <2603> unrelated; <D835 DC00+i> surrogate pair), i.e. every mixture of entries that do and do not look like an incrementing range ({} arrays per u): (c1) alone, u in {{<0041>, <00FE>}} x one code length in {{1, 2, 3, 4}}; (c2) arrays of n = 1..{} entries ({} arrays, u = <0041>) x one other definition of the same code length out of {} (covering all, some or none of the array's codes), before and after the array (the last covering definition wins), code length {}; all x every sectioning of the sequence x 2 white-space/EOL styles. Code strings per CMap: every mapped code alone, all mapped codes in one string, and every sequence of 2 and of 3 mapped codes (with repetition, every order, hence every succession of code lengths: equal, increasing, decreasing, long-short-long, ...)", if thorough { "the whole pool of 12" } else { "5 of the pool (bfchar single, bfchar surrogate pair, whole single-unit range, multi-unit range, array range; the thorough tier takes the whole pool)" },
+    let bound = format!("CMaps: (a) one code length in {{1, 2, 3, 4}} (3- and 4-byte codes with non-zero leading bytes, code space = all codes of that length) x every sequence of 1..3 definitions (with repetition, order significant) over a pool of 12 (bfchar single / surrogate pair / two units; bfrange with single unit, multi-unit, astral and array targets; overlapping, nested, adjacent and coalescable ranges); (b) mixed code lengths: every sequence of 2 definitions over the pool of 12 and every sequence of 3 definitions over {}, each x every assignment of a code length in {{1, 2, 3, 4}} to each definition that uses at least two lengths (12 resp. 60 assignments; prefix-free code spaces <10>..<1F>, <0110>..<011F>, <810110>..<81011F>, <8E810110>..<8E81011F>, one codespacerange per length used, the tail of a longer code is a shorter mapped code; a section may hold codes of several lengths); (c) array targets as a dimension of their own: bfrange <b+1> <b+n> [e_0 .. e_(n-1)] with one entry per code, for every array of n = 1..{} entries over {} entry shapes stated relative to the offset i and a start unit u (<u+i> alone = what an incrementing range from <u> would define; <u+i 0301> several units, the first continues the run; <0066 u+i> several units, the last continues the run; <u> no increment; <2603> unrelated; <D835 DC00+i> surrogate pair), i.e. every mixture of entries that do and do not look like an incrementing range ({} arrays per u): (c1) alone, u in {{<0041>, <00FE>}} x one code length in {{1, 2, 3, 4}}; (c2) arrays of n = 1..{} entries ({} arrays, u = <0041>) x one other definition of the same code length out of {} (covering all, some or none of the array's codes), before and after the array (the last covering definition wins), code length {}; all x every sectioning of the sequence x 2 white-space/EOL styles. Code strings per CMap of (a)-(c): every mapped code alone, all mapped codes in one string, and every sequence of 2 and of 3 mapped codes (with repetition, every order, hence every succession of code lengths: equal, increasing, decreasing, long-short-long, ...). \
+(d) the layout of the code space as a dimension of its own (in (a)-(c) and (e) every code length has ONE code space range, all in one section); the codespacerange sections precede the bf sections, every code of every definition lies in the code space, the mapped codes are b..b+5: (d1) one code length ({}): the code space is the 256 codes that share the leading bytes of b, declared as k ranges by cutting it at k-1 of the 7 places in front of b, between two neighbours of b..b+5, behind b+5 (so definitions lie in the first, a middle or the last range, or straddle a cut; ranges without any mapped code occur), x every order of listing the k ranges x every sectioning of the list (one codespacerange section .. one section per range): k = 2 (7 x 2 x 2 = 28 layouts) x every sequence of 1..2 definitions over the pool of 12{}; k = 3 (21 x 6 x 4 = 504 layouts) x every single definition of the pool of 12; (d2) two code lengths: every sequence of 2 definitions over {} x every assignment of two different code lengths (12), the prefix-free code space range of BOTH lengths cut in two at the same one of the 6 places behind b .. behind b+5, x 3 orders of listing (by length; the reverse; first halves of both lengths then second halves, so that the two ranges of a length are not neighbours) x (one section | one section per range) = 36 layouts; all x every sectioning of the definitions x 2 white-space/EOL styles. Oracle: unchanged, the code space does not enter it. \
+(e) the units of the targets as a dimension of their own: every target of 1..{} letters over 14 letters (<0041>; the ends of the unit range <0000> <FFFF>; the byte boundary <00FF> <0100>; next to the surrogate block <D7FF> <E000>; the surrogate pairs <D800DC00> <DBFFDFFF>; the replacement character <FFFD>; the units that spell an encoding signature at the start of a text <FEFF>, <FFFE>, <EFBB> <BF41>), {} targets, each as a bfchar target <b+2>, as a bfrange target <b+2> <b+3> (last unit + 1 for the second code; one code only where + 1 would leave UTF-16) and as the entries 0 and 2 of an array target <b+2> <b+4> [t <0058> t], next to bfchar <b> <0078>; code length in {{1, 2, 3, 4}} x every sectioning x 2 styles. \
+Code strings per CMap of (d), (e): every mapped code alone, all mapped codes in one string, every sequence of 2 mapped codes (so every target stands first and behind another code). A code whose text starts with the units of an encoding signature (FEFF, FFFE, EFBB BFxx) and does not decode alone is decoded behind a code that does, and a deviation there is charged to the code's definition; a deviation that shows only in a string STARTING with such units is the obligation {} (one per CMap, it does not end the CMap's session)",
+        if thorough { "the whole pool of 12" } else { "5 of the pool (bfchar single, bfchar surrogate pair, whole single-unit range, multi-unit range, array range; the thorough tier takes the whole pool)" },
         ARR_MAX_ALONE, SHAPES, (1..=ARR_MAX_ALONE).map(|n| SHAPES.pow(n as u32)).sum::<usize>(), ARR_MAX_CTX, (1..=ARR_MAX_CTX).map(|n| SHAPES.pow(n as u32)).sum::<usize>(),
-        if thorough { "the whole pool of 12" } else { "the same 5 of the pool" }, if thorough { "in {1, 2, 3, 4}" } else { "2 (the thorough tier takes 1, 2, 3, 4)" });
+        if thorough { "the whole pool of 12" } else { "the same 5 of the pool" }, if thorough { "in {1, 2, 3, 4}" } else { "2 (the thorough tier takes 1, 2, 3, 4)" },
+        if thorough { "each of 1, 2, 3, 4" } else { "2; the thorough tier takes 1, 2, 3, 4" },
+        if thorough { " and every sequence of 3 definitions over 5 of the pool" } else { " (the thorough tier adds every sequence of 3 definitions over 5 of the pool)" },
+        if thorough { "the whole pool of 12" } else { "the same 5 of the pool (the thorough tier: the whole pool)" },
+        if thorough { 3 } else { 2 }, (1..=if thorough { 3u32 } else { 2 }).map(|n| LETTERS.len().pow(n)).sum::<usize>(), O_SIG);
     let mut rep = Report::new(&bound, true);
-    let mut cases: Vec<(Vec<Def>, Vec<usize>)> = vec![];
+    let mut cases: Vec<Case> = vec![];
+    let mut push = |defs: Vec<Def>, lens: Vec<usize>| cases.push(Case { defs, lens, cs: None, max_seq: MAX_SEQ });
     for code_len in [2usize, 1, 3, 4] {
         let p = pool(code_len);
-        for a in 0..p.len() { cases.push((vec![p[a].clone()], vec![code_len])); for b in 0..p.len() { cases.push((vec![p[a].clone(), p[b].clone()], vec![code_len; 2])); for c in 0..p.len() { cases.push((vec![p[a].clone(), p[b].clone(), p[c].clone()], vec![code_len; 3])); } } }
+        for a in 0..p.len() { push(vec![p[a].clone()], vec![code_len]); for b in 0..p.len() { push(vec![p[a].clone(), p[b].clone()], vec![code_len; 2]); for c in 0..p.len() { push(vec![p[a].clone(), p[b].clone(), p[c].clone()], vec![code_len; 3]); } } }
     }
     // mixed code lengths: the definition k of the pool at length l is pool_at(mbase(l))[k]
     let mp: Vec<Vec<Def>> = (0..=4usize).map(|l| if l == 0 { vec![] } else { pool_at(mbase(l)) }).collect();
     let n = mp[1].len();
     let three: Vec<usize> = if thorough { (0..n).collect() } else { QUICK_MIXED.to_vec() };
     for la in 1..=4usize { for lb in 1..=4usize {
-        if la != lb { for a in 0..n { for b in 0..n { cases.push((vec![mp[la][a].clone(), mp[lb][b].clone()], vec![la, lb])); } } }
+        if la != lb { for a in 0..n { for b in 0..n { push(vec![mp[la][a].clone(), mp[lb][b].clone()], vec![la, lb]); } } }
     } }
     for la in 1..=4usize { for lb in 1..=4usize {
         for lc in 1..=4usize {
             if la == lb && lb == lc { continue; }
-            for &a in &three { for &b in &three { for &c in &three { cases.push((vec![mp[la][a].clone(), mp[lb][b].clone(), mp[lc][c].clone()], vec![la, lb, lc])); } } }
+            for &a in &three { for &b in &three { for &c in &three { push(vec![mp[la][a].clone(), mp[lb][b].clone(), mp[lc][c].clone()], vec![la, lb, lc]); } } }
         }
     } }
     // (c) array targets: every array of 1..=4 entries over the entry shapes, alone; every array of 1..=3 entries before and
     // after one other definition that covers some or all of its codes
     for code_len in [2usize, 1, 3, 4] {
-        for u in ARR_UNITS { for arr in arrays(ARR_MAX_ALONE, u) { cases.push((vec![arr_def(base(code_len), &arr)], vec![code_len])); } }
+        for u in ARR_UNITS { for arr in arrays(ARR_MAX_ALONE, u) { push(vec![arr_def(base(code_len), &arr)], vec![code_len]); } }
     }
     let ctx_lens: Vec<usize> = if thorough { vec![2, 1, 3, 4] } else { vec![2] };
     for &code_len in &ctx_lens {
         let p = pool(code_len);
         for arr in arrays(ARR_MAX_CTX, ARR_UNITS[0]) {
             let a = arr_def(base(code_len), &arr);
-            for &k in &three { cases.push((vec![p[k].clone(), a.clone()], vec![code_len; 2])); cases.push((vec![a.clone(), p[k].clone()], vec![code_len; 2])); }
+            for &k in &three { push(vec![p[k].clone(), a.clone()], vec![code_len; 2]); push(vec![a.clone(), p[k].clone()], vec![code_len; 2]); }
         }
     }
-    let results: Vec<(usize, Vec<(String, String, Value)>, u64)> = cases.par_iter().enumerate().map(|(i, (defs, lens))| {
+    // (d) the layout of the code space
+    let mut push_cs = |defs: Vec<Def>, lens: Vec<usize>, cs: Cs| cases.push(Case { defs, lens, cs: Some(cs), max_seq: MAX_SEQ_DE });
+    for &code_len in &ctx_lens {
+        let p = pool(code_len);
+        let (two, three_ranges) = (layouts_one(base(code_len), code_len, 2), layouts_one(base(code_len), code_len, 3));
+        for a in 0..p.len() {
+            for cs in two.iter().chain(&three_ranges) { push_cs(vec![p[a].clone()], vec![code_len], cs.clone()); }
+            for b in 0..p.len() { for cs in &two { push_cs(vec![p[a].clone(), p[b].clone()], vec![code_len; 2], cs.clone()); } }
+        }
+        if thorough { for &a in &QUICK_MIXED { for &b in &QUICK_MIXED { for &c in &QUICK_MIXED { for cs in &two { push_cs(vec![p[a].clone(), p[b].clone(), p[c].clone()], vec![code_len; 3], cs.clone()); } } } } }
+    }
+    for la in 1..=4usize { for lb in 1..=4usize {
+        if la == lb { continue; }
+        let ls = layouts_mixed(&[la, lb]);
+        for &a in &three { for &b in &three { for cs in &ls { push_cs(vec![mp[la][a].clone(), mp[lb][b].clone()], vec![la, lb], cs.clone()); } } }
+    } }
+    // (e) the units of the targets
+    let targets = letter_targets(if thorough { 3 } else { 2 });
+    for code_len in [2usize, 1, 3, 4] {
+        for t in &targets { for kind in 0..3 { cases.push(Case { defs: target_defs(base(code_len), kind, t), lens: vec![code_len; 2], cs: None, max_seq: MAX_SEQ_DE }); } }
+    }
+    let results: Vec<(usize, Vec<(String, String, Value)>, u64)> = cases.par_iter().enumerate().map(|(i, case)| {
+        let (defs, lens) = (&case.defs, &case.lens);
+        let cs = case.cs.clone().unwrap_or_else(|| default_cs(lens));
         let mut f = vec![]; let mut n = 0;
         for sectioning in 0..(1u32 << (defs.len() - 1)) { for style in 0..2 {
             n += 1;
-            if let Err((o, d)) = check(defs, lens, sectioning, style, MAX_SEQ) { f.push((o, d, defs_json(defs, lens, sectioning, style, MAX_SEQ))); }
+            for (o, d) in check(defs, lens, &cs, sectioning, style, case.max_seq) { let inp = defs_json(defs, lens, &cs, sectioning, style, case.max_seq, &o); f.push((o, d, inp)); }
         } }
         (i, f, n)
     }).collect();
     for (_, f, n) in results { rep.evaluations += n; rep.nontrivial += n; for (o, d, inp) in f { rep.fail(&o, d.clone(), inp, d); } }
-    rep.sample(String::from_utf8_lossy(&render(&[pool(2)[7].clone(), pool(2)[0].clone(), pool(2)[5].clone()], &[2, 2, 2], 1, 0)).chars().skip(250).take(260).collect());
-    rep.sample(String::from_utf8_lossy(&render(&[mp[2][3].clone(), mp[1][0].clone(), mp[3][1].clone()], &[2, 1, 3], 0, 0)).chars().skip(185).take(330).collect());
-    rep.sample(String::from_utf8_lossy(&render(&[arr_def(base(2), &[arr_entry(0, 0x41, 0), arr_entry(1, 0x41, 1), arr_entry(0, 0x41, 2)])], &[2], 0, 0)).chars().skip(250).take(120).collect());
+    rep.sample(String::from_utf8_lossy(&render(&[pool(2)[7].clone(), pool(2)[0].clone(), pool(2)[5].clone()], &[2, 2, 2], &default_cs(&[2]), 1, 0)).chars().skip(250).take(260).collect());
+    rep.sample(String::from_utf8_lossy(&render(&[mp[2][3].clone(), mp[1][0].clone(), mp[3][1].clone()], &[2, 1, 3], &default_cs(&[2, 1, 3]), 0, 0)).chars().skip(185).take(330).collect());
+    rep.sample(String::from_utf8_lossy(&render(&[arr_def(base(2), &[arr_entry(0, 0x41, 0), arr_entry(1, 0x41, 1), arr_entry(0, 0x41, 2)])], &[2], &default_cs(&[2]), 0, 0)).chars().skip(250).take(120).collect());
+    rep.sample(String::from_utf8_lossy(&render(&target_defs(base(2), 2, &[0xFEFF, 0x0041]), &[2, 2], &layouts_one(base(2), 2, 3)[57], 0, 0)).chars().skip(185).take(300).collect());
     rep
 }
 
 pub fn replay(v: &Value) -> Result<(), String> {
-    let (defs, lens, sectioning, style, max_seq) = defs_from(v);
-    check(&defs, &lens, sectioning, style, max_seq).map_err(|e| format!("{}: {}", e.0, e.1))
+    let (defs, lens, cs, sectioning, style, max_seq) = defs_from(v);
+    let mut f = check(&defs, &lens, &cs, sectioning, style, max_seq);
+    // a CMap can fail O_SIG (a text that starts with signature units) besides, and independently of, another obligation:
+    // a record written for O_SIG replays O_SIG, a record written for another obligation replays the others
+    if let Some(o) = v["obligation"].as_str() { f.retain(|e| (e.0 == O_SIG) == (o == O_SIG)); }
+    if f.is_empty() { Ok(()) } else { Err(f.iter().map(|e| format!("{}: {}", e.0, e.1)).collect::<Vec<_>>().join(" || ")) }
 }
